@@ -14,7 +14,7 @@ import collections
 from .exec import *
 from .mon_base import *
 
-MEMFUNCS = ('memcmp', 'memcpy', 'memmove', 'memchr')
+MEMFUNCS = ('memcmp', 'memcpy', 'memmove', 'memchr', 'strncmp')     # strncmp reads at most n characters of each array (fewer when it meets a null character: the bound asked for is the worst case)
 INPUT_CLASSES = ('tao::pegtl::internal::memory_input_base', 'tao::pegtl::memory_input')
 
 
